@@ -32,4 +32,5 @@ var All = map[string]func(*Ctx){
 	"C16": C16,
 	"C17": C17,
 	"C18": C18,
+	"C19": C19,
 }
